@@ -758,6 +758,17 @@ func (x *Exec) goStmt(st *State, in *ssa.Go) {
 		label = x.prog.relName(fn)
 		fs = x.prog.spec.Funcs[label]
 		names = x.paramNames(fn)
+		// a goroutine that captures a variable which is assigned again after the spawn (a loop variable
+		// shared by all iterations before go1.22, typically) reads whatever the variable holds by then
+		for _, b := range f.Bindings {
+			if a, ok := b.(*ssa.Alloc); ok {
+				if w := writtenAfter(in, a); w != nil {
+					pos := x.prog.prog.Fset.Position(w.Pos())
+					x.oblige(st, "gocapture", a.Comment, "false", x.spec.Props,
+						fmt.Sprintf("the spawned goroutine captures variable %s, which is assigned again at line %d while the goroutine may be running", a.Comment, pos.Line), in.Pos())
+				}
+			}
+		}
 		if fs != nil && len(fs.Params) == 0 {
 			var bs []Val
 			for _, b := range f.Bindings {
@@ -808,6 +819,58 @@ func (x *Exec) closureVars(st *State, fn *ssa.Function, bindings []Val) ([]strin
 		}
 	}
 	return names, vals
+}
+
+// writtenAfter: is there a store to the captured cell a that can execute after the go statement
+// without the cell having been allocated anew in between? Returns that store.
+func writtenAfter(g *ssa.Go, a *ssa.Alloc) *ssa.Store {
+	fn := g.Parent()
+	start := g.Block()
+	// statements after the go in its own block
+	afterGo := false
+	for _, in := range start.Instrs {
+		if in == ssa.Instruction(g) {
+			afterGo = true
+			continue
+		}
+		if !afterGo {
+			continue
+		}
+		if in == ssa.Instruction(a) {
+			return nil
+		}
+		if st, ok := in.(*ssa.Store); ok && st.Addr == ssa.Value(a) {
+			return st
+		}
+	}
+	seen := map[*ssa.BasicBlock]bool{}
+	work := append([]*ssa.BasicBlock(nil), start.Succs...)
+	for len(work) > 0 {
+		b := work[len(work)-1]
+		work = work[:len(work)-1]
+		if seen[b] {
+			continue
+		}
+		seen[b] = true
+		fresh := false
+		for _, in := range b.Instrs {
+			if b == start && in == ssa.Instruction(g) {
+				break // came round to the spawn again: a new spawn, its own analysis
+			}
+			if in == ssa.Instruction(a) {
+				fresh = true // the variable is a new cell from here on
+				break
+			}
+			if st, ok := in.(*ssa.Store); ok && st.Addr == ssa.Value(a) {
+				return st
+			}
+		}
+		if !fresh {
+			work = append(work, b.Succs...)
+		}
+	}
+	_ = fn
+	return nil
 }
 
 // resliceSource: does the slice value come (through phis) from a Slice instruction applied to
